@@ -29,7 +29,6 @@ import (
 	"fmt"
 	"net"
 	"net/netip"
-	"os"
 	"sort"
 	"strconv"
 	"strings"
@@ -62,15 +61,11 @@ import (
 	"github.com/projectcalico/calico/verifkit/refpol"
 )
 
-// ---- known findings (excluded from generation only while the driver lists them as open) ----
-const (
-	// app-policy/checker matchPort/matchNotPort look up the bare port number ("80") in a named-port
-	// IP set whose members are "ip,proto:port" strings, so a named-port match can never be true.
-	c12SigCheckerNamedPort = "c12-checker-named-port-set-never-matches"
-	// app-policy/policystore ipNetSet: a node at the bitmap depth (24 / 120 bits) answers from its
-	// bitmap only, so members with prefix length 25..31 (v4) / 121..127 (v6) are never found.
-	c12SigCheckerLongPrefix = "c12-checker-netset-prefix-25-31-never-matches"
-)
+// Findings of this check that have been repaired in /repo (kept as regression tests below):
+//   - c12-checker-netset-prefix-25-31-never-matches (cc3d495): policystore ipNetSet answered from the bitmap
+//     node only, so NET set members with prefix length 25..31 (v4) / 121..127 (v6) were never found.
+//   - c12-checker-named-port-set-never-matches (69d6496): checker matchPort/matchNotPort looked up the bare
+//     port number in named-port sets whose members are "ip,proto:port".
 
 // ---- small helpers: (almost) uniform draws that still shrink towards 0 ----
 
@@ -245,9 +240,8 @@ func c12ParseIPPort(m string) (netip.Addr, uint8, uint16) {
 	return a, pn, uint16(po)
 }
 
-func c12GenSets(t *rapid.T, s *c12State, rec *ev.Recorder, noNamed, noLongPrefix bool) {
+func c12GenSets(t *rapid.T, s *c12State) {
 	ipv := s.ipv
-	excludedLong := false
 	for i, id := range []string{"s:AbCd0123-_xyzEFGHijklmnopq", "s:B", "s:c9"} {
 		set := &c12Set{ID: id, Type: proto.IPSetUpdate_NET}
 		n := c12Idx(t, fmt.Sprintf("netset[%d]-size", i), 6)
@@ -257,17 +251,10 @@ func c12GenSets(t *rapid.T, s *c12State, rec *ev.Recorder, noNamed, noLongPrefix
 				fam = 10 - ipv // a member of the other family: not part of this family's dataplane set
 			}
 			p := c12GenCIDR(t, fam, fmt.Sprintf("netset[%d][%d]", i, j), 8)
-			if hb := p.Addr().BitLen() - p.Bits(); noLongPrefix && hb >= 1 && hb <= 7 {
-				p = netip.PrefixFrom(p.Addr(), p.Addr().BitLen())
-				excludedLong = true
-			}
 			set.Members = append(set.Members, p.String())
 		}
 		s.sets = append(s.sets, set)
 		s.netIDs = append(s.netIDs, id)
-	}
-	if excludedLong {
-		rec.Excluded(c12SigCheckerLongPrefix)
 	}
 	ipport := func(kind string, ids []string) []string {
 		for i, id := range ids {
@@ -284,11 +271,7 @@ func c12GenSets(t *rapid.T, s *c12State, rec *ev.Recorder, noNamed, noLongPrefix
 		return ids
 	}
 	s.svcIDs = ipport("svcset", []string{"svc:ns1/backend", "svc:Zz"})
-	if !noNamed {
-		s.namedIDs = ipport("namedset", []string{"n:http-tcp-0123456789abcdef", "n:Q"})
-	} else {
-		rec.Excluded(c12SigCheckerNamedPort)
-	}
+	s.namedIDs = ipport("namedset", []string{"n:http-tcp-0123456789abcdef", "n:Q"})
 }
 
 type c12RuleOpts struct {
@@ -477,8 +460,11 @@ func c12GenRule(t *rapid.T, s *c12State, label string, o c12RuleOpts) *proto.Rul
 		if !svc && c12Chance(t, label+"-dstnamed", p(12, 25)) {
 			r.DstNamedPortIpSetIds = c12PickIDs(t, label+"-dstnamed", s.namedIDs, 2)
 		}
-		if c12Chance(t, label+"-srcnamed", p(4, 10)) {
-			r.SrcNamedPortIpSetIds = c12PickIDs(t, label+"-srcnamed", s.namedIDs, 1)
+		if c12Chance(t, label+"-srcnamed", p(6, 12)) {
+			r.SrcNamedPortIpSetIds = c12PickIDs(t, label+"-srcnamed", s.namedIDs, 2)
+		}
+		if c12Chance(t, label+"-notsrcnamed", p(4, 10)) {
+			r.NotSrcNamedPortIpSetIds = c12PickIDs(t, label+"-notsrcnamed", s.namedIDs, 1)
 		}
 		if !svc && c12Chance(t, label+"-notdstnamed", p(5, 12)) {
 			r.NotDstNamedPortIpSetIds = c12PickIDs(t, label+"-notdstnamed", s.namedIDs, 1)
@@ -486,8 +472,16 @@ func c12GenRule(t *rapid.T, s *c12State, label string, o c12RuleOpts) *proto.Rul
 	}
 	// Stay below three positive match blocks (recorded C08 finding, not re-reported here).
 	for _, trim := range []func(){
-		func() { r.DstNet = r.DstNet[:1] },
-		func() { r.SrcNet = r.SrcNet[:1] },
+		func() {
+			if len(r.DstNet) > 1 {
+				r.DstNet = r.DstNet[:1]
+			}
+		},
+		func() {
+			if len(r.SrcNet) > 1 {
+				r.SrcNet = r.SrcNet[:1]
+			}
+		},
 	} {
 		if c12PositiveBlocks(r) >= 3 {
 			trim()
@@ -515,9 +509,9 @@ var (
 	c12StagedKinds    = []string{v3.KindStagedGlobalNetworkPolicy, v3.KindStagedNetworkPolicy, v3.KindStagedKubernetesNetworkPolicy}
 )
 
-func c12GenState(t *rapid.T, ipv int, rec *ev.Recorder, noNamed, noLongPrefix bool) *c12State {
+func c12GenState(t *rapid.T, ipv int) *c12State {
 	s := &c12State{ipv: ipv}
-	c12GenSets(t, s, rec, noNamed, noLongPrefix)
+	c12GenSets(t, s)
 
 	nTiers := c12From(t, "nTiers", []int{0, 1, 1, 2, 2, 2, 3, 3})
 	for ti := 0; ti < nTiers; ti++ {
@@ -1373,19 +1367,6 @@ func (n *c12NF) dumpVisited(p refpol.Packet, inbound bool, mark0 uint32) string 
 	return b.String()
 }
 
-func c12Known(sig string) bool {
-	if ev.Known(sig) {
-		return true
-	}
-	// Development aid: lets the author run the search behind a finding before the lead has listed it.
-	for _, x := range strings.Split(os.Getenv("VERIF_C12_ASSUME_KNOWN"), ",") {
-		if x == sig {
-			return true
-		}
-	}
-	return false
-}
-
 func c12Bucket(n int) string {
 	switch {
 	case n <= 2:
@@ -1397,7 +1378,7 @@ func c12Bucket(n int) string {
 	}
 }
 
-func c12RunCase(t *rapid.T, rec *ev.Recorder, noNamed, noLongPrefix bool, caseNo int) {
+func c12RunCase(t *rapid.T, rec *ev.Recorder, caseNo int) {
 	ipv := rapid.SampledFrom([]int{4, 6}).Draw(t, "ipVersion")
 	marks := rapid.SampledFrom(c12MarkLayouts).Draw(t, "markLayout")
 	flowLogs := rapid.Bool().Draw(t, "flowLogs")
@@ -1407,7 +1388,7 @@ func c12RunCase(t *rapid.T, rec *ev.Recorder, noNamed, noLongPrefix bool, caseNo
 	bo.DenyIdx = bo.AllowIdx + 1 + rapid.IntRange(0, 40).Draw(t, "bpfDenyIdxDelta")
 	bo.PolIdx = rapid.IntRange(0, jump.TCMaxEntryPoints-2).Draw(t, "bpfPolIdx")
 
-	s := c12GenState(t, ipv, rec, noNamed, noLongPrefix)
+	s := c12GenState(t, ipv)
 	cfg := c12RulesConfig(marks, flowLogs, denyAction)
 
 	im, err := c12BuildAll(s, cfg, marks, bo)
@@ -1529,7 +1510,7 @@ func c12RunCase(t *rapid.T, rec *ev.Recorder, noNamed, noLongPrefix bool, caseNo
 		}
 	}
 	for _, r := range append(append([]*proto.Rule{}, inRules...), outRules...) {
-		named = named || len(r.SrcNamedPortIpSetIds)+len(r.DstNamedPortIpSetIds)+len(r.NotDstNamedPortIpSetIds) > 0
+		named = named || len(r.SrcNamedPortIpSetIds)+len(r.DstNamedPortIpSetIds)+len(r.NotSrcNamedPortIpSetIds)+len(r.NotDstNamedPortIpSetIds) > 0
 		svc = svc || len(r.DstIpPortSetIds) > 0
 		ipset = ipset || len(r.SrcIpSetIds)+len(r.DstIpSetIds)+len(r.NotSrcIpSetIds)+len(r.NotDstIpSetIds) > 0
 	}
@@ -1578,17 +1559,13 @@ func TestVerifC12DataplanesAgree(t *testing.T) {
 		"iptables/nft verdict = DROP/REJECT vs return with the accept mark from the endpoint chain (ctstate NEW); BPF verdict = tail call into the allow/deny slot; checker verdict = last trace element is an Allow rule / CheckResponse status",
 		"AllowVXLANPacketsFromWorkloads/AllowIPIPPacketsFromWorkloads are on so that the anti-encapsulation drops of the from-workload chain (not policy) stay out of the comparison")
 	defer rec.Write()
-	noNamed := c12Known(c12SigCheckerNamedPort)
-	noLongPrefix := c12Known(c12SigCheckerLongPrefix)
 	caseNo := 0 // diagnostic only (shown in failure messages); includes shrink re-executions
-	rapid.Check(t, func(t *rapid.T) { caseNo++; c12RunCase(t, rec, noNamed, noLongPrefix, caseNo) })
+	rapid.Check(t, func(t *rapid.T) { caseNo++; c12RunCase(t, rec, caseNo) })
 }
 
-// ---- deterministic confirmation tests for findings on the unchanged tree (run by the driver by
-// name for signatures listed as open in KNOWN_FINDINGS.json; each FAILS while the finding
-// reproduces).  Once a finding is no longer listed its scenario runs as a regression test. ----
+// ---- deterministic regression tests for the repaired findings (part of the unit's normal run) ----
 
-func c12ConfirmState(ipv int, sets []*c12Set, in, out []*proto.Rule) *c12State {
+func c12FixedState(ipv int, sets []*c12Set, in, out []*proto.Rule) *c12State {
 	s := &c12State{ipv: ipv, sets: sets}
 	id := &proto.PolicyID{Name: "p0", Kind: v3.KindGlobalNetworkPolicy}
 	pol := &c12Policy{ID: id, In: true, Out: true, Selector: "all()", Pol: &proto.Policy{Tier: "default", InboundRules: in, OutboundRules: out}}
@@ -1598,58 +1575,74 @@ func c12ConfirmState(ipv int, sets []*c12Set, in, out []*proto.Rule) *c12State {
 	return s
 }
 
-func c12ConfirmRun(t *testing.T, s *c12State, inbound bool, pkts []refpol.Packet) {
+// c12FixedRun requires agreement and, per packet, the stated verdict (so that a scenario cannot
+// pass by everybody denying).
+func c12FixedRun(t *testing.T, s *c12State, inbound bool, pkts []refpol.Packet, want []c12Verdict) {
 	ev.Quiet()
 	marks := c12MarkLayouts[0]
 	im, err := c12BuildAll(s, c12RulesConfig(marks, false, "DROP"), marks, c12BPFOpts{AllowIdx: 1, DenyIdx: 2, PolIdx: 3})
 	if err != nil {
 		t.Fatalf("C12: %v\n%s", err, s.describe())
 	}
-	for _, p := range pkts {
+	for i, p := range pkts {
 		ops, err := im.opinions(p, inbound, 0, false)
 		if err != nil {
 			t.Fatalf("%v", err)
 		}
-		if !c12Agree(ops) {
-			t.Errorf("C12 violated: the implementations disagree for packet %v inbound=%v\n%sstate:\n%s", p, inbound, c12FormatOpinions(ops, c12NoVerdict), s.describe())
+		if !c12Agree(ops) || ops[0].verdict != want[i] {
+			t.Errorf("C12 violated: the implementations disagree (or all differ from the scenario's stated verdict %v) for packet %v inbound=%v\n%sstate:\n%s",
+				want[i], p, inbound, c12FormatOpinions(ops, want[i]), s.describe())
 		}
 	}
 }
 
-// A selector/network-set IP set with a member whose prefix length is 25..31: "allow from set".
-func TestVerifC12ConfirmCheckerLongPrefix(t *testing.T) {
-	sets := []*c12Set{{ID: "s:netset", Type: proto.IPSetUpdate_NET, Members: []string{"10.0.0.128/25", "10.0.1.0/24", "10.0.2.7/32"}}}
-	s := c12ConfirmState(4, sets, []*proto.Rule{{Action: "allow", SrcIpSetIds: []string{"s:netset"}}}, nil)
-	a := netip.MustParseAddr
-	c12ConfirmRun(t, s, true, []refpol.Packet{
-		{IPVersion: 4, Proto: 6, Src: a("10.0.1.9"), Dst: a("10.0.0.5"), SrcPort: 1000, DstPort: 80},   // in the /24
-		{IPVersion: 4, Proto: 6, Src: a("10.0.2.7"), Dst: a("10.0.0.5"), SrcPort: 1000, DstPort: 80},   // the /32
-		{IPVersion: 4, Proto: 6, Src: a("10.0.0.129"), Dst: a("10.0.0.5"), SrcPort: 1000, DstPort: 80}, // in the /25
-		{IPVersion: 4, Proto: 6, Src: a("10.0.0.127"), Dst: a("10.0.0.5"), SrcPort: 1000, DstPort: 80}, // outside
-	})
-}
-
-// "allow tcp to named port": the named-port IP set holds "ip,proto:port" members.
-func TestVerifC12ConfirmCheckerNamedPort(t *testing.T) {
-	sets := []*c12Set{{ID: "n:http", Type: proto.IPSetUpdate_IP_AND_PORT, Members: []string{"10.0.0.5,tcp:8080"}}}
-	s := c12ConfirmState(4, sets, []*proto.Rule{{Action: "allow", Protocol: c12ProtoName("tcp"), DstNamedPortIpSetIds: []string{"n:http"}}}, nil)
-	a := netip.MustParseAddr
-	c12ConfirmRun(t, s, true, []refpol.Packet{
-		{IPVersion: 4, Proto: 6, Src: a("10.0.1.9"), Dst: a("10.0.0.5"), SrcPort: 1000, DstPort: 8080}, // the named port
-		{IPVersion: 4, Proto: 6, Src: a("10.0.1.9"), Dst: a("10.0.0.5"), SrcPort: 1000, DstPort: 8081}, // another port
-	})
-}
-
+// A selector/network-set IP set with members whose prefix length is 25..31 / 121..127.
 func TestVerifC12RegressionCheckerLongPrefix(t *testing.T) {
-	if c12Known(c12SigCheckerLongPrefix) {
-		t.Skip("listed as an open known finding")
+	a := netip.MustParseAddr
+	sets := []*c12Set{{ID: "s:netset", Type: proto.IPSetUpdate_NET, Members: []string{"10.0.0.128/25", "10.0.1.0/24", "10.0.2.7/32", "10.0.3.4/31"}}}
+	s := c12FixedState(4, sets, []*proto.Rule{{Action: "allow", SrcIpSetIds: []string{"s:netset"}}}, []*proto.Rule{{Action: "allow", NotDstIpSetIds: []string{"s:netset"}}})
+	pk := func(src string) refpol.Packet {
+		return refpol.Packet{IPVersion: 4, Proto: 6, Src: a(src), Dst: a("10.0.0.5"), SrcPort: 1000, DstPort: 80}
 	}
-	TestVerifC12ConfirmCheckerLongPrefix(t)
+	c12FixedRun(t, s, true, []refpol.Packet{pk("10.0.1.9"), pk("10.0.2.7"), pk("10.0.0.129"), pk("10.0.0.127"), pk("10.0.3.5"), pk("10.0.3.6")},
+		[]c12Verdict{c12Allow, c12Allow, c12Allow, c12Deny, c12Allow, c12Deny})
+	out := func(dst string) refpol.Packet {
+		return refpol.Packet{IPVersion: 4, Proto: 17, Src: a("10.0.0.5"), Dst: a(dst), SrcPort: 1000, DstPort: 53}
+	}
+	c12FixedRun(t, s, false, []refpol.Packet{out("10.0.0.200"), out("10.0.0.100"), out("10.0.3.4")}, []c12Verdict{c12Deny, c12Allow, c12Deny})
+
+	sets6 := []*c12Set{{ID: "s:netset", Type: proto.IPSetUpdate_NET, Members: []string{"fd00::80/121", "fd00::1:0/112"}}}
+	s6 := c12FixedState(6, sets6, []*proto.Rule{{Action: "allow", SrcIpSetIds: []string{"s:netset"}}}, nil)
+	s6.ep.Ipv4Nets, s6.ep.Ipv6Nets = nil, []string{"fd00::5/128"}
+	pk6 := func(src string) refpol.Packet {
+		return refpol.Packet{IPVersion: 6, Proto: 6, Src: a(src), Dst: a("fd00::5"), SrcPort: 1000, DstPort: 80}
+	}
+	c12FixedRun(t, s6, true, []refpol.Packet{pk6("fd00::81"), pk6("fd00::7f"), pk6("fd00::1:9")}, []c12Verdict{c12Allow, c12Deny, c12Allow})
 }
 
+// Named ports: the named-port IP sets hold "ip,proto:port" members.
 func TestVerifC12RegressionCheckerNamedPort(t *testing.T) {
-	if c12Known(c12SigCheckerNamedPort) {
-		t.Skip("listed as an open known finding")
+	a := netip.MustParseAddr
+	sets := []*c12Set{
+		{ID: "n:http", Type: proto.IPSetUpdate_IP_AND_PORT, Members: []string{"10.0.0.5,tcp:8080"}},
+		{ID: "n:client", Type: proto.IPSetUpdate_IP_AND_PORT, Members: []string{"10.0.1.9,tcp:1000", "10.0.1.9,udp:1001"}},
 	}
-	TestVerifC12ConfirmCheckerNamedPort(t)
+	in := []*proto.Rule{
+		{Action: "deny", Protocol: c12ProtoName("tcp"), NotSrcNamedPortIpSetIds: []string{"n:client"}, DstPorts: []*proto.PortRange{{First: 443, Last: 443}}},
+		{Action: "allow", Protocol: c12ProtoName("tcp"), DstNamedPortIpSetIds: []string{"n:http"}, DstPorts: []*proto.PortRange{{First: 443, Last: 443}}},
+		{Action: "allow", SrcNamedPortIpSetIds: []string{"n:client"}, NotDstNamedPortIpSetIds: []string{"n:http"}},
+	}
+	s := c12FixedState(4, sets, in, nil)
+	pk := func(pr uint8, src string, sport, dport uint16) refpol.Packet {
+		return refpol.Packet{IPVersion: 4, Proto: pr, Src: a(src), Dst: a("10.0.0.5"), SrcPort: sport, DstPort: dport}
+	}
+	c12FixedRun(t, s, true, []refpol.Packet{
+		pk(6, "10.0.1.8", 1000, 8080), // the named port
+		pk(6, "10.0.1.8", 1000, 8081), // another port
+		pk(6, "10.0.1.8", 1000, 443),  // numeric alternative, but source is not the named client port: denied by rule 0
+		pk(6, "10.0.1.9", 1000, 443),  // from the named client port: rule 0 does not apply, rule 1 allows
+		pk(17, "10.0.1.9", 1001, 53),  // rule 2: source named port (udp)
+		pk(17, "10.0.1.9", 1000, 53),  // udp:1000 is not a member
+		pk(6, "10.0.1.9", 1000, 9090), // rule 2 (dst is not the named port)
+	}, []c12Verdict{c12Allow, c12Deny, c12Deny, c12Allow, c12Allow, c12Deny, c12Allow})
 }
